@@ -27,10 +27,13 @@ ACCESS = _mods(r"(planar\.(x|y|rho|rho2|phi)|spatial\.(z|theta|eta|mag|mag2)|lor
 # property -> [(source property module, {source rule: name here}, why, construct filter or None)]
 SHARED = {
     "C01": [
+        ("c07", {"C07.kernel-arguments": "C01.numba-kernel-arguments"}, "compiled code picks the variant by the operands' coordinate systems: the signature tuple and the coordinate arguments must pair each operand with its own system", None),
         ("c15", {"C15.replace-data": "C01.replace-data"}, "an in-place result is stored back in the accumulator's own coordinate system: the conversion must read the result's coordinates by name", None),
         ("c03", {"C03.value-preserving-fill": "C01.wrap-fill"}, "a constant result component (rho = 1 of a unit vector) must reach the array unchanged in every coordinate system", None),
     ],
     "C02": [
+        ("c07", {"C07.kernel-arguments": "C02.numba-kernel-arguments", "C07.literal-order": "C02.numba-euler-order"}, "compiled code computes the documented definitions only if it feeds the kernels the interpreter's arguments (angle order of rotate_nautical, the Euler order)", None),
+        ("c09", {"C09.method-forwarding": "C02.boost-forwarding"}, "an active boost by a 4D booster is a boost by its velocity p/E, by a 3D booster a boost by that velocity: boost() must tell them apart", None),
         ("c01", {"C01.base-agreement": "C02.native-variants", "C01.dispatch-args": "C02.dispatch-arguments", "C01.template": "C02.variants"},
          "a variant that does not denote its Cartesian kernel, or a dispatcher that feeds the kernel the wrong scalar, does not compute the documented definition", None),
         ("c10", {"C10.euler-composition": "C02.euler-convention", "C10.handedness": "C02.handedness", "C10.quaternion-equals-axis": "C02.quaternion-convention"},
@@ -38,6 +41,7 @@ SHARED = {
         ("c14", {"C14.property": "C02.momentum-accessors"}, "the momentum-named accessors are documented as the geometric quantities", None),
     ],
     "C03": [
+        ("c15", {"C15.replace-data": "C03.replace-data"}, "a sequence of in-place updates on an object must equal the same updates on the array element", None),
         ("c14", {"C14.awkward-fields": "C03.awkward-field-classes"}, "the Awkward backend must read each stored field as the coordinate the other backends read", None),
         ("c05", {"C05.counted-operands": "C03.result-handler"}, "element i of an array result exists only if the array operand's backend wraps the result", None),
         ("c18", {"C18.transform-binding": "C03.transform-binding"}, "Awkward operands reach the kernel through ak.transform: each must be bound to its own kernel parameter", None),
@@ -48,6 +52,7 @@ SHARED = {
         ("c18", {"C18.transform-flag": "C04.identity-kernels-untransformed"}, "an identity accessor run through ak.transform no longer returns the stored column unchanged", None),
     ],
     "C05": [
+        ("c01", {"C01.dispatch-wrap": "C05.dispatch-wrap"}, "the dimension of a result and the fields it keeps follow from what the dispatcher hands to _wrap_result (returns, num_vecargs)", None),
         ("c03", {"C03.wrap-spec": "C05.wrap-class", "C03.value-preserving-fill": "C05.wrap-promotion"}, "the result class (flavor, dimension) and whether a record or an array comes back are decided inside _wrap_result", None),
         ("c10", {"C10.euler-table": "C05.euler-table"}, "every method is defined for every coordinate system and every axis order", None),
         ("c18", {"C18.behavior-classes": "C05.behavior-classes"}, "the Awkward record/array class of a result is looked up in the behavior table", None),
@@ -64,6 +69,7 @@ SHARED = {
         ("c12", {"C12.isclose-shape": "C08.isclose-call-shape"}, "SympyLib.isclose takes (a, b, *args): the kernels' call shape is part of what SymPy can evaluate", None),
     ],
     "C09": [
+        ("c07", {"C07.composite-overloads": "C09.numba-composites"}, "boost / boostCM_of* in compiled code are written in terms of boost_p4 / boost_beta3: they must forward what the interpreter forwards", BOOST),
         ("c01", {"C01.base-agreement": "C09.variants", "C01.dispatch-wrap": "C09.dispatch-wrap", "C01.result-representable": "C09.result-representable"},
          "the boost laws are proved on the Cartesian kernels; every other variant must denote them and be wrapped with the documented operands", BOOST),
         ("c07", {"C07.kernel-arguments": "C09.numba-kernel-arguments"}, "boosts inside numba.njit call the same kernels", BOOST),
@@ -71,30 +77,37 @@ SHARED = {
         ("c05", {"C05.dimension-guards": "C09.dimension-guards"}, "the boosts reject operands of the wrong dimension", BOOST),
     ],
     "C10": [
+        ("c07", {"C07.literal-order": "C10.numba-euler-order"}, "rotate_euler with any of the 12 orders: compiled code must select the kernel of the order the caller wrote", None),
         ("c01", {"C01.base-agreement": "C10.variants", "C01.dispatch-wrap": "C10.dispatch-wrap"}, "rotation laws are proved on the Cartesian kernels; the dispatcher decides what wraps the result (time untouched)", ROT),
         ("c05", {"C05.counted-operands": "C10.counted-operands"}, "the axis of rotate_axis is a secondary argument: it must not choose the result's backend, flavor or dimension", ROT),
         ("c07", {"C07.kernel-arguments": "C10.numba-kernel-arguments"}, "rotations inside numba.njit call the same kernels", ROT),
         ("c03", {"C03.wrap-spec": "C10.wrap-spec"}, "a rotated array is assembled by _wrap_result; time / proper time are passed through there", None),
     ],
     "C11": [
+        ("c15", {"C15.replace-data": "C11.replace-data"}, "the vector-space laws hold for += / -= / *= only if the in-place result is stored back completely", None),
+        ("c03", {"C03.value-preserving-fill": "C11.wrap-fill"}, "unit() has norm one: the constant rho = 1 of the polar kernel must reach the array unchanged", None),
         ("c03", {"C03.wrap-spec": "C11.wrap-spec"}, "sums, differences and multiples of arrays are assembled by _wrap_result: each result column with its own dtype", None),
         ("c01", {"C01.result-representable": "C11.result-representable"}, "a - b + b == a needs the time component's sign: a tau-class result of a t-stored operand loses it", ARITH),
     ],
     "C12": [
+        ("c07", {"C07.coord-binding": "C12.numba-coord-binding", "C07.kernel-arguments": "C12.numba-kernel-arguments"}, "== / != / isclose in compiled code compare each coordinate of one operand with the other operand's", _mods(r"add_isclose_method|add_binary_method")),
         ("c01", {"C01.dispatch-lookup": "C12.dispatch-lookup", "C01.dispatch-args": "C12.dispatch-args", "C01.template": "C12.variants"},
          "== / != / isclose look their variant up by both operands' systems", CMP),
         ("c17", {"C17.numpy-routing": "C12.numpy-function-routing"}, "numpy.isclose / numpy.allclose reach the methods through __array_function__ with the operands in order", None),
     ],
     "C13": [
+        ("c07", {"C07.coord-binding": "C13.numba-coord-binding", "C07.kernel-arguments": "C13.numba-kernel-arguments"}, "the angle predicates in compiled code read each operand in its own coordinate system", _mods(r"add_tolerance_method")),
         ("c05", {"C05.defaults-agree": "C13.default-tolerance"}, "the predicates' default tolerances are the documented ones (the protocol signature)", PRED),
         ("c01", {"C01.template": "C13.variants", "C01.base-agreement": "C13.native-variants"}, "the predicate shapes are decided per variant on lifted symbols; each variant must compute those symbols from its own operands", PRED),
     ],
     "C14": [
+        ("c06", {"C06.obj": "C14.obj-synonyms"}, "vector.obj through any synonym builds the momentum-flavored vector with the value in the geometric slot", None),
         ("c05", {"C05.operators": "C14.operator-tables"}, "the flavor never changes a number: Momentum rows of the ufunc/behavior tables equal the Vector rows", None),
         ("c06", {"C06.check-names": "C14.constructor-synonyms"}, "constructing through a synonym stores the value under the geometric coordinate", None),
         ("c04", {"C04.to-system-momentum": "C14.momentum-conversions"}, "the to_pxpy... conversions equal their geometric counterparts, keyword for keyword", None),
     ],
     "C15": [
+        ("c05", {"C05.same-dimension": "C15.same-dimension"}, "an in-place operator with an operand of another dimension must raise before anything is stored", None),
         ("c01", {"C01.result-representable": "C15.result-representable", "C01.base-agreement": "C15.kernels"}, "+= / -= / *= equal the functional add / subtract / scale, whose variants must be right for the in-place result to be", ARITH),
     ],
     "C16": [
@@ -102,10 +115,14 @@ SHARED = {
         ("c20", {"C20.behavior-copied": "C16.behavior-copied"}, "vector.Array(akarray) must not write into the behavior mapping of its argument", None),
     ],
     "C17": [
+        ("c06", {"C06.columns": "C17.result-columns"}, "numpy sums are assembled from a dict of component sums: every field must get its own column's dtype", None),
+        ("c14", {"C14.awkward-fields": "C17.awkward-fields"}, "ak.sum reads the operand's components through the field cascades of the Awkward coordinate classes", None),
         ("c13", {"C13.singular-points": "C17.zero-vector-conventions"}, "count_nonzero and sums of padded arrays rely on the accessors' values for the zero vector", ACCESS),
         ("c01", {"C01.template": "C17.accessor-variants", "C01.entry-name": "C17.accessor-table"}, "reducers read Cartesian components and t2 through the accessor tables", ACCESS),
     ],
     "C18": [
+        ("c14", {"C14.awkward-fields": "C18.awkward-fields"}, "a record selected from an array behaves like the equivalent object only if each field is read as the coordinate it names", None),
+        ("c06", {"C06.coordinate-dtypes": "C18.layouts-accepted"}, "vector.Array must accept option-typed and list-nested layouts to keep them through operations", _mods(r"^awkward\._is_type_safe")),
         ("c01", {"C01.dispatch-wrap": "C18.num-vecargs"}, "num_vecargs decides whether the Awkward wrapper carries the operand's extra fields", None),
         ("c05", {"C05.class-links": "C18.class-links", "C05.counted-operands": "C18.counted-operands"}, "a record selected from an array must map to the same projection / flavor classes as the array", None),
         ("c06", {"C06.extra-fields": "C18.extra-fields-constructed"}, "a field can only be carried through operations if the constructor kept it", None),
